@@ -144,4 +144,28 @@ example : WFS Opts.default 0 Gen.tReadValueId
     (.struct [.sc (.nodeId ⟨2, .str (some [97])⟩), .sc (.uint32 13), .sc (.str none), .sc (.qname 0 none)]) := by
   simp [Gen.tReadValueId, WFS, WFFields, WFScalar, WFNodeId, WFIdent, WFStr, Scalar.tid, Opts.default, utf8Valid]
 
+/-! ### the DateTime defect that was repaired (`ticks()` before the fix) -/
+
+/-- A `DateTime` a caller can construct (`DateTime::ymd(40000, 1, 1)` is about 1.2·10^19 ticks after
+1601) made `ticks()` — and with it `checked_ticks()` and `encode` — overflow `i64` before the clamp
+to 1601..9999 could apply: a panic in the dev profile. -/
+theorem C01_counterexample_datetime_ticks_overflow :
+    encDateTimeOld 12000000000000000000 = none ∧ encDateTimeOld (-12000000000000000000) = none
+      ∧ encDateTimeOld 9223372036854775808 = none := by decide
+
+/-- inside the `i64` range nothing changed -/
+theorem datetime_old_encoder_in_range (t : Int) (h1 : -9223372036854775808 ≤ t) (h2 : t ≤ 9223372036854775807) :
+    encDateTimeOld t = some (encDateTime t) := by
+  unfold encDateTimeOld ticksOld i64Max
+  simp only []
+  split
+  · rw [if_neg (by omega), if_neg (by omega)]; rfl
+  · rw [if_neg (by omega), if_neg (by omega)]; rfl
+
+/-- the repaired `ticks()` saturates, and clamping the saturated value is clamping the value: the
+encoder is total and `decode (encode t) = clamp t` holds for EVERY chrono value (`WFScalar` puts no
+condition on a DateTime, so `dec_enc_variant` covers them). -/
+theorem datetime_encode_total (t : Int) : encDateTime t = le64 (ofS64 (dtChecked (ticksSat t))) := by
+  rw [dtChecked_ticksSat]; rfl
+
 end OpcuaVerif.C01
